@@ -549,6 +549,20 @@ func (ri *reflectInspector) recursivelyRecordUsedForReflectImpl(t types.Type, vi
 			ri.recursivelyRecordUsedForReflectImpl(field.Type(), visited)
 		}
 
+	case *types.Map:
+		// Both the key and the element type are reachable via reflection.
+		ri.recursivelyRecordUsedForReflectImpl(t.Key(), visited)
+		ri.recursivelyRecordUsedForReflectImpl(t.Elem(), visited)
+
+	case *types.Signature:
+		// So are the parameter and result types of a func type.
+		for v := range t.Params().Variables() {
+			ri.recursivelyRecordUsedForReflectImpl(v.Type(), visited)
+		}
+		for v := range t.Results().Variables() {
+			ri.recursivelyRecordUsedForReflectImpl(v.Type(), visited)
+		}
+
 	case interface{ Elem() types.Type }:
 		// Get past pointers, slices, etc.
 		ri.recursivelyRecordUsedForReflectImpl(t.Elem(), visited)
